@@ -60,6 +60,27 @@ def crafted_decision_triples():
                 else: out.append((nb(b, {}), nb(l, {}), nb(r, {})))
     return out
 
+def crafted_output_triples():
+    """both sides change several mime types / the metadata of the SAME output (decisions that share two or more path
+    levels), merged under output strategies that collect and re-combine the diffs (remove, clear-all, inline-outputs)"""
+    out = []
+    def nb(outs): return {'cells': [{'cell_type': 'code', 'execution_count': 1, 'metadata': {}, 'outputs': outs, 'source': 'show(x)'}],
+                          'metadata': {}, 'nbformat': 4, 'nbformat_minor': 4}
+    plain = 'value: 1\nsecond line of the plain text\nthird line of the plain text\n'
+    html = '<div>\n<b>value</b>: 1\n<p>second line of the html</p>\n</div>\n'
+    def er(p, h, md=None): return {'output_type': 'execute_result', 'execution_count': 1, 'metadata': md or {}, 'data': {'text/plain': p, 'text/html': h}}
+    def st(t): return {'output_type': 'stream', 'name': 'stdout', 'text': t}
+    b = [er(plain, html), st('log line\n')]
+    l = [er(plain.replace('1', '2'), html.replace(': 1', ': 2')), st('log line\n')]
+    r = [er(plain.replace('third', '3rd'), html.replace('second', '2nd')), st('log line\nmore\n')]
+    out.append((nb(b), nb(l), nb(r)))
+    l2 = [er(plain.replace('1', '2'), html.replace(': 1', ': 2'), {'isolated': True}), st('log line\n')]
+    r2 = [er(plain.replace('1', '3'), html.replace(': 1', ': 3'), {'isolated': False}), st('log line\n')]
+    out.append((nb(b), nb(l2), nb(r2)))
+    b3 = [st('a\n'), er(plain, html)]; l3 = [st('a\n'), er(plain + 'L\n', html + '<i>L</i>\n')]; r3 = [st('a\n'), er('R\n' + plain, '<i>R</i>\n' + html)]
+    out.append((nb(b3), nb(l3), nb(r3)))
+    return out
+
 def run(tier, seed):
     chk = core.Check(PROP, tier, seed)
     b = core.build()
@@ -85,7 +106,9 @@ def run(tier, seed):
     tasks = ([{'op': 'diff', 'a': a, 'b': bb} for a, bb in gpairs]
              + [{'op': 'nbdiff_patch', 'a': a, 'b': bb} for a, bb in npairs]
              + [{'op': 'merge_decisions', 'base': x, 'local': y, 'remote': z, 'strategy': s}
-                for (x, y, z) in triples for s in ('mergetool', 'inline')])
+                for (x, y, z) in triples for s in ('mergetool', 'inline')]
+             + [{'op': 'merge_decisions', 'base': x, 'local': y, 'remote': z, 'strategy': 'inline', 'output_strategy': os_}
+                for (x, y, z) in crafted_output_triples() + triples[:(20 if tier == 'quick' else 200)] for os_ in ('remove', 'clear-all', 'inline-outputs', 'use-local')])
     results = core.run_impl(tasks, shards=14)
     nontrivial = set(); counts = {'generic': 0, 'notebook': 0, 'decision': 0}; merge_errors = 0
     checker_lines = []; checker_meta = []
@@ -116,7 +139,7 @@ def run(tier, seed):
                     sig, detail = judge_diff(val, sub, d)
                     if sig:
                         detail = dict(detail or {}, which=which, common_path=dec.get('common_path'), strategy=t['strategy'])
-                        chk.violation(sig + ':decision-' + which, {'base': t['base'], 'local': t['local'], 'remote': t['remote'], 'strategy': t['strategy']}, detail)
+                        chk.violation(sig + ':decision-' + which, {'base': t['base'], 'local': t['local'], 'remote': t['remote'], 'strategy': t['strategy'], 'output_strategy': t.get('output_strategy')}, detail)
     diff_errors = sum(1 for t, res in zip(tasks, results) if t['op'] in ('diff', 'nbdiff_patch') and 'err' in res)
     if diff_errors * 5 > len(gpairs) + len(npairs) or merge_errors * 2 > 2 * len(triples):
         chk.broken_obligation('harness:too-many-failing-calls', {'diff_errors': diff_errors, 'merge_errors': merge_errors})
@@ -148,7 +171,7 @@ def replay(path):
         res = core.run_impl([{'op': op, 'a': case['a'], 'b': case['b']}])[0]
         sig, detail = (None, None) if 'err' in res else judge_diff(val, case['a'], res['ok'])
     else:
-        res = core.run_impl([{'op': 'merge_decisions', 'base': case['base'], 'local': case['local'], 'remote': case['remote'], 'strategy': case.get('strategy', 'inline')}])[0]
+        res = core.run_impl([{'op': 'merge_decisions', 'base': case['base'], 'local': case['local'], 'remote': case['remote'], 'strategy': case.get('strategy', 'inline'), 'output_strategy': case.get('output_strategy')}])[0]
         sig = None
         for dec in res.get('ok', []):
             sub = subdoc(case['base'], dec.get('common_path', []))
